@@ -60,6 +60,24 @@ Theorem C08_edge_identity_partial : forall mechs nv fuel cfg w x a,
 Proof. intros mechs nv fuel cfg w x a Hx. exact (edge_identity_fresh mechs nv fuel cfg w x Hx a). Qed.
 Print Assumptions C08_edge_identity_partial.
 
+(* "Before EHLO" means: before a greeting the APPLICATION accepted.  In any session, if Server has an
+   EHLO identity `a` after some step, then in that step or an earlier one the EHLO or HELO handler
+   was called with `a` and left the reply at 250 (a greeting rejected by the handler - 550, 450,
+   421, an exception - never creates or changes the identity; a rejected EHLO after an accepted one
+   keeps the old identity).  In particular, when the application accepts no greeting there is never
+   an identity, before or after the handshake, immediate TLS included - so by C08_auth_gating /
+   C08_state_after_tls AUTH, MAIL and STARTTLS are refused throughout. *)
+Theorem C08_identity_only_from_accepted_greeting :
+  (forall mechs nv fuel cfg w pre x post a,
+     t_session mechs fuel cfg nv w = pre ++ x :: post ->
+     s_ehlo (sv (t_st (post_of x))) = Some a ->
+     exists y, In y (pre ++ [x]) /\ hello_ev nv a (ev_of y)) /\
+  (forall mechs nv fuel cfg w x,
+     (forall k a, (k = KEhlo \/ k = KHelo) -> apply_verdict (nv_vf nv k a) 250 <> Some 250) ->
+     In x (t_session mechs fuel cfg nv w) -> s_ehlo (sv (t_st (post_of x))) = None).
+Proof. split; [exact session_ehlo|exact rejected_greetings_no_identity]. Qed.
+Print Assumptions C08_identity_only_from_accepted_greeting.
+
 (* AUTH is refused (one 5xx reply, no handler, no challenge, nothing changed) before EHLO, after
    a successful AUTH, inside a transaction, and for a plain-text mechanism on an unencrypted
    session; and in every session every call of the AUTH handler happened in a state that passes
